@@ -325,7 +325,10 @@ type Peer struct {
 	scCount uint32
 
 	// connections are mutable, and are protected by the mutex.
-	newConnLock         sync.Mutex
+	// newConnLock restricts connection creation to one goroutine per peer. It
+	// is a one-slot semaphore rather than a mutex so that waiting for it is
+	// bounded by the waiter's own context.
+	newConnLock chan struct{}
 	inboundConnections  []*Connection
 	outboundConnections []*Connection
 	chosenCount         atomic.Uint64
@@ -346,7 +349,23 @@ func newPeer(channel Connectable, hostPort string, onStatusChanged func(*Peer), 
 		hostPort:            hostPort,
 		onStatusChanged:     onStatusChanged,
 		onClosedConnRemoved: onClosedConnRemoved,
+		newConnLock:         make(chan struct{}, 1),
 	}
+}
+
+// lockNewConn acquires the per-peer connection creation lock, giving up when
+// ctx is done so that callers never wait beyond their own deadline.
+func (p *Peer) lockNewConn(ctx context.Context) error {
+	select {
+	case p.newConnLock <- struct{}{}:
+		return nil
+	case <-ctx.Done():
+		return GetContextError(ctx.Err())
+	}
+}
+
+func (p *Peer) unlockNewConn() {
+	<-p.newConnLock
 }
 
 // HostPort returns the host:port used to connect to this peer.
@@ -405,9 +424,12 @@ func (p *Peer) GetConnection(ctx context.Context) (*Connection, error) {
 		return activeConn, nil
 	}
 
-	// Lock here to restrict new connection creation attempts to one goroutine
-	p.newConnLock.Lock()
-	defer p.newConnLock.Unlock()
+	// Lock here to restrict new connection creation attempts to one goroutine.
+	// Waiting for the lock counts against the caller's deadline.
+	if err := p.lockNewConn(ctx); err != nil {
+		return nil, err
+	}
+	defer p.unlockNewConn()
 
 	// Check active connections again in case someone else got ahead of us.
 	if activeConn, ok := p.getActiveConn(); ok {
@@ -425,15 +447,6 @@ func (p *Peer) getConnectionRelay(callTimeout, relayMaxConnTimeout time.Duration
 		return conn, nil
 	}
 
-	// Lock here to restrict new connection creation attempts to one goroutine
-	p.newConnLock.Lock()
-	defer p.newConnLock.Unlock()
-
-	// Check active connections again in case someone else got ahead of us.
-	if activeConn, ok := p.getActiveConn(); ok {
-		return activeConn, nil
-	}
-
 	// Use the lower timeout value of the call timeout and the relay connection timeout.
 	timeout := callTimeout
 	if timeout > relayMaxConnTimeout && relayMaxConnTimeout > 0 {
@@ -446,6 +459,18 @@ func (p *Peer) getConnectionRelay(callTimeout, relayMaxConnTimeout time.Duration
 	// and don't try to send Hyperbahn traffic on this connection.
 	ctx, cancel := NewContextBuilder(timeout).HideListeningOnOutbound().Build()
 	defer cancel()
+
+	// Lock here to restrict new connection creation attempts to one goroutine.
+	// Waiting for the lock counts against the connection timeout.
+	if err := p.lockNewConn(ctx); err != nil {
+		return nil, err
+	}
+	defer p.unlockNewConn()
+
+	// Check active connections again in case someone else got ahead of us.
+	if activeConn, ok := p.getActiveConn(); ok {
+		return activeConn, nil
+	}
 
 	return p.Connect(ctx)
 }
